@@ -27,6 +27,7 @@ AutomationMgr::AutomationMgr(int slots, int per_slot, int control_points)
         }
     }
 
+    NRPN.parhi = NRPN.parlo = NRPN.valhi = NRPN.vallo = -1;
 }
 AutomationMgr::~AutomationMgr(void)
 {
